@@ -70,6 +70,10 @@ pub trait Sch: 'static {
     fn point(sz: &Size, coords: Vec<SF>) -> <Self::P as Polynomial<SF>>::Point;
     /// coordinates of a point (for perturbation drivers)
     fn point_coords(p: &<Self::P as Polynomial<SF>>::Point) -> Vec<SF>;
+    /// first group element of an opening proof as a scalar in the exponent (for `W != 0` assumptions)
+    fn proof_elem(_p: &<Self::PC as PolynomialCommitment<SF, Self::P>>::Proof, _k: usize) -> Option<SF> {
+        None
+    }
     /// reference evaluation from the raw coefficient list (independent of the polynomial type's own evaluate)
     fn ref_eval(sz: &Size, coeffs: &[SF], coords: &[SF]) -> SF;
 }
@@ -153,6 +157,9 @@ impl Sch for Marlin {
     fn setup(sz: &Size, rng: &mut StdRng) -> Result<<Self::PC as PolynomialCommitment<SF, UP>>::UniversalParams, String> {
         MarlinPC::setup(sz.max_degree, None, rng).map_err(|e| e.to_string())
     }
+    fn proof_elem(p: &ark_poly_commit::kzg10::Proof<ToyPairing>, _k: usize) -> Option<SF> {
+        Some(p.w.0)
+    }
     uni_common!();
 }
 pub struct Sonic;
@@ -163,6 +170,9 @@ impl Sch for Sonic {
     const HIDING: bool = true;
     fn setup(sz: &Size, rng: &mut StdRng) -> Result<<Self::PC as PolynomialCommitment<SF, UP>>::UniversalParams, String> {
         SonicPC::setup(sz.max_degree, None, rng).map_err(|e| e.to_string())
+    }
+    fn proof_elem(p: &ark_poly_commit::kzg10::Proof<ToyPairing>, _k: usize) -> Option<SF> {
+        Some(p.w.0)
     }
     uni_common!();
 }
@@ -247,6 +257,9 @@ impl Sch for Pst13 {
     const UNIVARIATE: bool = false;
     fn setup(sz: &Size, rng: &mut StdRng) -> Result<<Self::PC as PolynomialCommitment<SF, MP>>::UniversalParams, String> {
         Pst13PC::setup(sz.max_degree, Some(sz.num_vars), rng).map_err(|e| e.to_string())
+    }
+    fn proof_elem(p: &ark_poly_commit::marlin_pst13_pc::Proof<ToyPairing>, k: usize) -> Option<SF> {
+        p.w.get(k).map(|w| w.0)
     }
     fn ncoeffs(sz: &Size, len: usize) -> usize {
         // `len` = total degree + 1 of the dense polynomial to build (capped by supported)
